@@ -5,5 +5,15 @@ open SamVerif.Useful
 #print axioms additional_useful_iff
 #print axioms iflet_useless_iff
 #print axioms accepted_exhaustive
+#print axioms cex_some_sound
+#print axioms exhaustive_iff
+#print axioms counterexample_denotes_unmatched
 #print axioms match_accepted_exhaustive
+#print axioms match_exhaustive_iff
+#print axioms useful_terminates
+#print axioms cex_terminates
+#print axioms useful_exact
+#print axioms iflet_exact
+#print axioms match_exact
+#print axioms inhabited_certificate
 #print axioms useful_iff_counterexample
